@@ -1199,3 +1199,222 @@ Proof.
   destruct M as [<-|M]; [apply F|]. apply in_app_or in M.
   apply (fresh_result_reach n h r F fuel x). destruct M as [M|M]; [now right | left; now apply rt_ids_reach].
 Qed.
+
+(* ---------------------------------------------------------------------------------------- *)
+(* DAGNode: the same calculus on the DAG heap of Heap/Dag.v (names used qualified) *)
+From BT Require Heap.Dag.
+
+Definition dsame_at (s s' : Dag.dag) (x : id) : Prop :=
+  Dag.parents s' x = Dag.parents s x /\ Dag.children s' x = Dag.children s x /\ Dag.dname s' x = Dag.dname s x.
+
+Definition dframe (A : region) (s s' : Dag.dag) : Prop :=
+  Dag.dsize s' = Dag.dsize s /\ forall x, A x = false -> dsame_at s s' x.
+
+Definition dclosed (A : region) (s : Dag.dag) : Prop :=
+  forall x, A x = true ->
+    (forall p, In p (Dag.parents s x) -> A p = true) /\ (forall k, In k (Dag.children s x) -> A k = true).
+
+Definition dok (A : region) (s s' : Dag.dag) : Prop := dframe A s s' /\ dclosed A s'.
+
+Lemma dsame_at_refl s x : dsame_at s s x.
+Proof. unfold dsame_at; auto. Qed.
+Lemma dsame_at_trans s1 s2 s3 x : dsame_at s1 s2 x -> dsame_at s2 s3 x -> dsame_at s1 s3 x.
+Proof. unfold dsame_at; intros (a & b & c) (a' & b' & c'); repeat split; congruence. Qed.
+
+Lemma dok_refl A s : dclosed A s -> dok A s s.
+Proof. intros H. split; [split; [reflexivity | intros; apply dsame_at_refl] | exact H]. Qed.
+
+Lemma dok_trans A s1 s2 s3 : dok A s1 s2 -> dok A s2 s3 -> dok A s1 s3.
+Proof.
+  intros [[e1 f1] _] [[e2 f2] c2]. split; [|exact c2]. split; [congruence|].
+  intros x Hx. eapply dsame_at_trans; [apply f1 | apply f2]; assumption.
+Qed.
+
+Lemma dok_add_edge A s p c : dclosed A s -> A p = true -> A c = true -> dok A s (Dag.add_edge s p c).
+Proof.
+  intros Hc Ap Ac. unfold Dag.add_edge. destruct (memb p (Dag.parents s c)); [now apply dok_refl|].
+  split.
+  - split; [reflexivity|]. intros x Hx. unfold dsame_at; cbn.
+    rewrite !upd_neq; auto; intros ->; congruence.
+  - intros x Ax. cbn. split.
+    + intros q Hq. destruct (Nat.eq_dec x c) as [->|N].
+      * rewrite upd_eq in Hq. apply in_app_or in Hq. destruct Hq as [Hq|[<-|[]]]; [|exact Ap].
+        now apply (proj1 (Hc c Ac)).
+      * rewrite upd_neq in Hq by exact N. now apply (proj1 (Hc x Ax)).
+    + intros k Hk. destruct (Nat.eq_dec x p) as [->|N].
+      * rewrite upd_eq in Hk. apply in_app_or in Hk. destruct Hk as [Hk|[<-|[]]]; [|exact Ac].
+        now apply (proj2 (Hc p Ap)).
+      * rewrite upd_neq in Hk by exact N. now apply (proj2 (Hc x Ax)).
+Qed.
+
+Lemma dok_del_edge A s p c : dclosed A s -> A p = true -> A c = true -> dok A s (Dag.del_edge s p c).
+Proof.
+  intros Hc Ap Ac. unfold Dag.del_edge. split.
+  - split; [reflexivity|]. intros x Hx. unfold dsame_at; cbn.
+    rewrite !upd_neq; auto; intros ->; congruence.
+  - intros x Ax. cbn. split.
+    + intros q Hq. destruct (Nat.eq_dec x c) as [->|N].
+      * rewrite upd_eq in Hq. apply In_remove1 in Hq. now apply (proj1 (Hc c Ac)).
+      * rewrite upd_neq in Hq by exact N. now apply (proj1 (Hc x Ax)).
+    + intros k Hk. destruct (Nat.eq_dec x p) as [->|N].
+      * rewrite upd_eq in Hk. apply In_remove1 in Hk. now apply (proj2 (Hc p Ap)).
+      * rewrite upd_neq in Hk by exact N. now apply (proj2 (Hc x Ax)).
+Qed.
+
+Lemma dok_fold {B} (f : Dag.dag -> B -> Dag.dag) A (P : B -> Prop) :
+  (forall s b, dclosed A s -> P b -> dok A s (f s b)) ->
+  forall l s, dclosed A s -> (forall b, In b l -> P b) -> dok A s (fold_left f l s).
+Proof.
+  intros Hf l; induction l as [|b t IH]; intros s Hc Hl; cbn.
+  - now apply dok_refl.
+  - assert (H1 : dok A s (f s b)) by (apply Hf; auto; apply Hl; now left).
+    eapply dok_trans; [exact H1|]. apply IH; [exact (proj2 H1)|]. intros b' Hb'. apply Hl; now right.
+Qed.
+
+Definition darg_in (A : region) (a : Dag.darg) : bool := match a with Dag.DNode i => A i | _ => true end.
+
+Lemma In_dids_of A args x : forallb (darg_in A) args = true -> In x (Dag.ids_of args) -> A x = true.
+Proof.
+  induction args as [|a t IH]; cbn; [tauto|].
+  intros H. apply andb_true_iff in H. destruct H as [Ha Ht].
+  destruct a as [i| |]; cbn; intros Hx; try (now apply IH).
+  destruct Hx as [<-|Hx]; [exact Ha | now apply IH].
+Qed.
+
+Lemma dok_set_parents A cfg ft s c cont args :
+  dclosed A s -> A c = true -> forallb (darg_in A) args = true ->
+  dok A s (fst (Dag.set_parents cfg ft s c cont args)).
+Proof.
+  intros Hc Ac Ha. unfold Dag.set_parents.
+  destruct (Dag.check_parents s c cont args); cbn [fst]; [now apply dok_refl|].
+  destruct (Dag.dfault_eqb ft Dag.DPreFail); cbn [fst]; [now apply dok_refl|].
+  assert (Hn : forall x, In x (Dag.ids_of args) -> A x = true) by (intros x; now apply In_dids_of).
+  assert (H1 : dok A s (Dag.assign_parents s c (Dag.ids_of args))).
+  { unfold Dag.assign_parents. apply (dok_fold _ A (fun p => A p = true)); auto.
+    intros st p Hst Ap. now apply dok_add_edge. }
+  destruct (Dag.dfault_eqb ft Dag.DPostFail); cbn [fst]; [|exact H1].
+  eapply dok_trans; [exact H1|]. unfold Dag.parents_rollback.
+  apply (dok_fold _ A (fun p => A p = true)); [| apply H1 | exact Hn].
+  intros st p Hst Ap. destruct (memb p (Dag.parents s c)); [now apply dok_refl | now apply dok_del_edge].
+Qed.
+
+Lemma dok_set_children A cfg ft s p cont args :
+  dclosed A s -> A p = true -> forallb (darg_in A) args = true ->
+  dok A s (fst (Dag.set_children cfg ft s p cont args)).
+Proof.
+  intros Hc Ap Ha. unfold Dag.set_children.
+  destruct (Dag.check_children s p cont args); cbn [fst]; [now apply dok_refl|].
+  destruct (Dag.dfault_eqb ft Dag.DPreFail); cbn [fst]; [now apply dok_refl|].
+  assert (Hn : forall x, In x (Dag.ids_of args) -> A x = true) by (intros x; now apply In_dids_of).
+  assert (H1 : dok A s (Dag.assign_children s p (Dag.ids_of args))).
+  { unfold Dag.assign_children. apply (dok_fold _ A (fun x => A x = true)); auto.
+    intros st x Hst Ax. now apply dok_add_edge. }
+  destruct (Dag.dfault_eqb ft Dag.DPostFail); cbn [fst]; [|exact H1].
+  eapply dok_trans; [exact H1|]. unfold Dag.children_rollback.
+  apply (dok_fold _ A (fun x => A x = true)); [| apply H1 | exact Hn].
+  intros st x Hst Ax. destruct (memb x (Dag.children s p)); [now apply dok_refl | now apply dok_del_edge].
+Qed.
+
+(* DNew allocates: it is not an operation *on* a region *)
+Definition dop_in (A : region) (o : Dag.dop) : bool :=
+  match o with
+  | Dag.SetParents c _ args _ | Dag.SetKids c _ args _ => A c && forallb (darg_in A) args
+  | Dag.DelKids p | Dag.DelKid p _ => A p
+  | Dag.DRShift p c _ | Dag.DLShift c p _ => A p && A c
+  | Dag.DNew _ _ _ _ _ => false
+  end.
+
+Theorem dstep_ok A cfg s o : dclosed A s -> dop_in A o = true -> dok A s (fst (Dag.dstep cfg s o)).
+Proof.
+  intros Hc Ho. unfold Dag.dstep.
+  destruct (negb (Dag.dop_in_range s o)); cbn [fst]; [now apply dok_refl|].
+  destruct o as [c cont args ft|p cont args ft|p|p nm|p c ft|c p ft|nm pa ca ftp ftc];
+    cbn [dop_in] in Ho; try discriminate; try (apply andb_true_iff in Ho; destruct Ho as [H1 H2]).
+  - now apply dok_set_parents.
+  - now apply dok_set_children.
+  - cbn [fst]. unfold Dag.del_children. apply (dok_fold _ A (fun c => A c = true)); auto.
+    + intros st c Hst Ac. now apply dok_del_edge.
+    + intros c Hin. now apply (proj2 (Hc p Ho)).
+  - unfold Dag.del_item.
+    destruct (filter (fun k => str_eqb (Dag.dname s k) nm) (Dag.children s p)) as [|c [|c' t]] eqn:E;
+      cbn [fst]; try (now apply dok_refl).
+    apply dok_del_edge; auto.
+    assert (Hin : In c (filter (fun k => str_eqb (Dag.dname s k) nm) (Dag.children s p))) by (rewrite E; now left).
+    apply filter_In in Hin. now apply (proj2 (Hc p Ho)).
+  - apply dok_set_parents; auto. cbn. now rewrite H1.
+  - apply dok_set_parents; auto. cbn. now rewrite H1.
+Qed.
+
+Theorem dag_independence A B cfg s o :
+  (forall x, A x = true -> B x = false) -> dclosed A s -> dop_in A o = true ->
+  (forall x, B x = true -> dsame_at s (fst (Dag.dstep cfg s o)) x) /\ dclosed A (fst (Dag.dstep cfg s o)).
+Proof.
+  intros D Hc Ho. destruct (dstep_ok A cfg s o Hc Ho) as [[_ F] C]. split; [|exact C].
+  intros x Bx. apply F. destruct (A x) eqn:Ax; [|reflexivity]. rewrite (D x Ax) in Bx. discriminate.
+Qed.
+
+(* the DAG copy *)
+Lemma dphi_ge s r x : Dag.dsize s <= dphi s r x.
+Proof. unfold dphi. lia. Qed.
+
+Lemma ddc_below s r x : x < Dag.dsize s -> dsame_at s (ddeep_copy s r) x.
+Proof.
+  intros H. apply Nat.ltb_lt in H. unfold dsame_at, ddeep_copy; cbn [Dag.parents Dag.children Dag.dname].
+  rewrite H. auto.
+Qed.
+
+Lemma ddc_links_fresh s r k :
+  Dag.dsize s <= k ->
+  (forall p, In p (Dag.parents (ddeep_copy s r) k) -> Dag.dsize s <= p)
+  /\ (forall c, In c (Dag.children (ddeep_copy s r) k) -> Dag.dsize s <= c).
+Proof.
+  intros H. assert (L : Nat.ltb k (Dag.dsize s) = false) by (now apply Nat.ltb_ge).
+  unfold ddeep_copy; cbn [Dag.parents Dag.children]. rewrite L.
+  destruct (nth_error (dcomp s r) (k - Dag.dsize s)) as [x|]; split; try (intros c []).
+  - intros p Hp. apply in_map_iff in Hp. destruct Hp as (y & <- & _). apply dphi_ge.
+  - intros c Hc. apply in_map_iff in Hc. destruct Hc as (y & <- & _). apply dphi_ge.
+Qed.
+
+Theorem dag_copy_fresh_equal s r :
+  let s' := ddeep_copy s r in
+  (forall x, In x (dcomp s r) -> Dag.dsize s <= dphi s r x < Dag.dsize s')
+  /\ (forall x y, In x (dcomp s r) -> dphi s r x = dphi s r y -> x = y)
+  /\ (forall x, In x (dcomp s r) ->
+        Dag.parents s' (dphi s r x) = map (dphi s r) (Dag.parents s x)
+        /\ Dag.children s' (dphi s r x) = map (dphi s r) (Dag.children s x)
+        /\ Dag.dname s' (dphi s r x) = Dag.dname s x)
+  /\ dclosed (ge (Dag.dsize s)) s'
+  /\ (forall x, x < Dag.dsize s -> dsame_at s s' x).
+Proof.
+  cbn zeta. split; [|split; [|split; [|split]]].
+  - intros x H. split; [apply dphi_ge|]. unfold dphi, ddeep_copy; cbn. apply index_of_lt in H. lia.
+  - intros x y H E. unfold dphi in E. eapply index_of_inj; [exact H | lia].
+  - intros x H. unfold ddeep_copy; cbn [Dag.parents Dag.children Dag.dname].
+    assert (L : Nat.ltb (dphi s r x) (Dag.dsize s) = false) by (apply Nat.ltb_ge; apply dphi_ge).
+    rewrite L.
+    assert (N : nth_error (dcomp s r) (dphi s r x - Dag.dsize s) = Some x).
+    { unfold dphi. replace (Dag.dsize s + index_of x (dcomp s r) - Dag.dsize s) with (index_of x (dcomp s r)) by lia.
+      now apply nth_error_index_of. }
+    rewrite N. auto.
+  - intros x Ax. apply ge_true in Ax. destruct (ddc_links_fresh s r x Ax) as [P K].
+    split; [intros p Hp | intros k Hk]; apply ge_true; auto.
+  - intros x. apply ddc_below.
+Qed.
+
+Theorem dag_copy_input_unchanged s start x :
+  x < Dag.dsize s -> dsame_at s (fst (dsk_copy s start)) x.
+Proof. apply ddc_below. Qed.
+
+Theorem dag_copy_result_fresh s start :
+  Dag.dsize s <= snd (dsk_copy s start) /\ dclosed (ge (Dag.dsize s)) (fst (dsk_copy s start)).
+Proof. split; [apply dphi_ge | apply (dag_copy_fresh_equal s start)]. Qed.
+
+Theorem dag_export_input_unchanged s start x : x < Dag.dsize s -> dsame_at s (dsk_export s start) x.
+Proof. apply ddc_below. Qed.
+
+Theorem dag_shallow_input_unchanged s x y :
+  y < Dag.dsize s -> dsame_at s (fst (dshallow_copy s x)) y.
+Proof.
+  intros L. assert (N : y <> Dag.dsize s) by lia. unfold dshallow_copy, dsame_at; cbn.
+  rewrite !upd_neq by exact N. auto.
+Qed.
